@@ -66,7 +66,9 @@ def _run(tier, seed, replay=None):
         variants = {"CancelKeepsSucceeded=FALSE (the repaired defect)":
                     variant(wd, "wu_cancel_asis.cfg", [("CancelKeepsSucceeded = TRUE", "CancelKeepsSucceeded = FALSE")], "SucceededIsFinal"),
                     "UnregFirst=TRUE (index entry deleted before the files: a concurrent look-up re-registers the unit)":
-                    variant(wd, "wu_unregfirst.cfg", [("UnregFirst = FALSE", "UnregFirst = TRUE")], "ReleaseRemoves")}
+                    variant(wd, "wu_unregfirst.cfg", [("UnregFirst = FALSE", "UnregFirst = TRUE")], "ReleaseRemoves"),
+                    "ScanRegistersAlias=TRUE (a non-canonical spelling of an id registers a second unit over the same directory)":
+                    variant(wd, "wu_alias.cfg", [("ScanRegistersAlias = FALSE", "ScanRegistersAlias = TRUE")], "UniqueIDs")}
         wit = vlib.witnesses("WorkUnit", "WorkUnit_quick.cfg", ["W_NoSucceeded", "W_NoCanceled", "W_NoRelease", "W_NoKilled"], wd)
 
     # remote-work protocol (RemoteUnit.tla): exhaustive parts in thorough only
